@@ -24,6 +24,8 @@ Over the executable model of `functions/plscf.py` (`Plscf.plscfOrder`, `rmfd2ac`
 * `C08_perm_plscf_column` — eigen-record transport (`(λ, q) ↦ (λ, (I⊗P)·q)`) and the column of
   `ac2mp_poly`: same `fn`, `xi`, poles and NaN pattern, every shape permuted by `ρ`.
 * `C08_perm_plscf` — the composition for two runs of the model, from the spectra to the column.
+* `C08_perm_plscf_poles` — same characteristic polynomial of the state matrix; C05's eigenvalue-record
+  contract is transported.
 -/
 namespace PV.C08
 open PV PV.Mat PV.Cov PV.Plscf Finset
@@ -236,6 +238,42 @@ theorem C08_perm_plscf (Nch Nref Nf n : Nat) (hi : Bool) (Om : Nat → Plscf.Cx 
   · intro k hk o ho c hc
     exact hβ o ho k hk c hc
 
+/-- **the same companion eigenvalues, as C05 records them.**  In the setting of `C08_perm_plscf` the state
+    matrices of the two runs have the same characteristic polynomial; hence the recorded list of eigenvalues
+    that satisfies C05's contract of `np.linalg.eig` for `A` (the multiset of the recorded `lam_d`, embedded
+    in an extension `L ∋ I`, is the multiset of roots of the characteristic polynomial) satisfies it — with
+    the eigenvectors transported — for `A'`. -/
+theorem C08_perm_plscf_poles (Nch Nref Nf n : Nat) (hi : Bool) (Om : Nat → Plscf.Cx K)
+    (Sy : Nat → Nat → Nat → Plscf.Cx K) (hN : 0 < Nch) (hR : 0 < Nref) {σ τ ρ ρi : Nat → Nat}
+    (hσ : PermOn Nch σ τ) (hρ : PermOn Nref ρ ρi) (out out' : OrderOut K)
+    (h : plscfOrder Nch Nref Nf n hi Om Sy = some out)
+    (h' : plscfOrder Nch Nref Nf n hi Om (permSy ρ σ Sy) = some out')
+    (hRinj : ∀ y : Nat → K,
+      (∀ i < n + 1, ∑ t ∈ range (n + 1), Ro Nf Om i t * y t = 0) → ∀ t < n + 1, y t = 0)
+    (hinj : ∀ y : Nat → K,
+      (∀ I < n * Nch, ∑ J ∈ range (n * Nch),
+        (if hi then out.M I J else out.M (Nch + I) (Nch + J)) * y J = 0) → ∀ J < n * Nch, y J = 0)
+    (hAinj : ∀ y : Nat → K,
+      (∀ a < Nch, ∑ t ∈ range Nch, out.alpha (n * Nch + a) t * y t = 0) → ∀ t < Nch, y t = 0)
+    (A C A' C' : Mat K)
+    (hac : rmfd2ac (adOf Nch n out.alpha) (bnOf Nch Nref n out.beta) = some (A, C))
+    (hac' : rmfd2ac (adOf Nch n out'.alpha) (bnOf Nch Nref n out'.beta) = some (A', C')) :
+    (toMx ((n + 1) * Nch) ((n + 1) * Nch) A'.e).charpoly
+      = (toMx ((n + 1) * Nch) ((n + 1) * Nch) A.e).charpoly ∧
+    ∀ {L : Type} [Field L] (f : K →+* L) (I : L) (eigs : List (EigIn K)),
+      Multiset.map (fun e => emb f I e.lamd) (eigs : Multiset (EigIn K))
+        = ((toMx ((n + 1) * Nch) ((n + 1) * Nch) A.e).charpoly.map f).roots →
+      Multiset.map (fun e => emb f I e.lamd)
+          ((eigs.map (permEig (blkPerm Nch σ) ((n + 1) * Nch)) : List (EigIn K)) : Multiset (EigIn K))
+        = ((toMx ((n + 1) * Nch) ((n + 1) * Nch) A'.e).charpoly.map f).roots := by
+  obtain ⟨_, _, hA, _⟩ := C08_perm_plscf Nch Nref Nf n hi Om Sy hN hR hσ hρ out out' h h'
+    hRinj hinj hAinj A C A' C' hac hac'
+  have hcp := charpoly_perm (blkPerm_permOn hN hσ (n + 1)) A.e A'.e hA
+  refine ⟨hcp, ?_⟩
+  intro L _ f I eigs hrec
+  rw [hcp, ← hrec, ← Multiset.map_coe, Multiset.map_map]
+  rfl
+
 /-- **the square single-setup array `P·Sy·Pᵀ`** (`Nref = Nch`, rows and columns permuted alike): the
     instance `ρ = σ` of `C08_perm_plscf` — denominators `P·A_k·Pᵀ`, numerators `P·B_k·Pᵀ`, the same
     companion eigenvalues, mode shapes permuted by `P`. -/
@@ -355,6 +393,8 @@ example : True := by
   have := C08_perm_plscf_order 2 2 3 1 false exOm pSy (by decide) pSwpPerm pSwpPerm out out' h h'
     ex_Ro_inj hinj
   have := C08_perm_plscf 2 2 3 1 false exOm pSy (by decide) (by decide) pSwpPerm pSwpPerm out out' h h'
+    ex_Ro_inj hinj hAinj A C A' C' hac hac'
+  have := C08_perm_plscf_poles 2 2 3 1 false exOm pSy (by decide) (by decide) pSwpPerm pSwpPerm out out' h h'
     ex_Ro_inj hinj hAinj A C A' C' hac hac'
   have := C08_perm_plscf_square 2 3 1 false exOm pSy (by decide) pSwpPerm out out' h h'
     ex_Ro_inj hinj hAinj A C A' C' hac hac' (fun x => x) 6 100 false 0 [] (by simp) (by simp)
